@@ -39,6 +39,8 @@ func (f FlowSpec) String() string {
 //	Es   enter_flow(self)            Est  enter_flow(self, terminal)
 //	Eo   enter_flow(other flow)      Eot  enter_flow(other, terminal)
 //	Em   enter_flow(missing flow) - the only action that fails a run
+//	AW   send_msg whose text and quick reply both read a deprecated context value, then a set_run_result
+//	     that reads it again: several events per step, among them consecutive identical warnings
 //	EsEm / EoEm   two actions: enter_flow(self / other), then enter_flow(missing flow): the run fails
 //	     after it has pushed a flow
 //	W    switch on @input.text with msg wait: [has "a" -> exit0, default -> exit1]
@@ -48,7 +50,7 @@ func (f FlowSpec) String() string {
 //	D    dial wait (voice): [answered -> exit0, default -> exit1]
 //	N    no actions, no router, 1 exit
 var KindExits = map[string]int{
-	"A": 1, "AR": 1, "Es": 1, "Est": 1, "Eo": 1, "Eot": 1, "Em": 1, "EsEm": 1, "EoEm": 1, "W": 2, "WT": 2, "S": 2, "R": 2, "D": 2, "N": 1,
+	"A": 1, "AR": 1, "Es": 1, "Est": 1, "Eo": 1, "Eot": 1, "Em": 1, "AW": 1, "EsEm": 1, "EoEm": 1, "W": 2, "WT": 2, "S": 2, "R": 2, "D": 2, "N": 1,
 }
 
 // ActionSets lets a check add node kinds "A:<name>": a node with the given action list and one
@@ -179,6 +181,11 @@ func renderNode(f, i int, n Node, other int) J {
 		node["actions"] = []any{J{"uuid": actUUID(f, i, 0), "type": "send_msg", "text": fmt.Sprintf("hi from f%d n%d", f, i)}}
 	case "AR":
 		node["actions"] = []any{J{"uuid": actUUID(f, i, 0), "type": "set_run_result", "name": "R", "value": fmt.Sprintf("v%d", i), "category": "C"}}
+	case "AW":
+		node["actions"] = []any{
+			J{"uuid": actUUID(f, i, 0), "type": "send_msg", "text": "extra: @legacy_extra", "quick_replies": []any{"@legacy_extra", "@legacy_extra"}},
+			J{"uuid": actUUID(f, i, 1), "type": "set_run_result", "name": "R", "value": "@legacy_extra", "category": "C"},
+		}
 	case "N":
 		node["actions"] = []any{}
 	case "Es":
